@@ -91,9 +91,10 @@ HIST_PLAN = {
                         "calls_clearEdges": 50, "calls_removeVertexFromEdgeList": 300}),
     "C06": dict(quick=54000, thorough=1800000,
                 rule="pairs of histories: A = random history; B = different random history followed by a shuffled repair sequence reaching the same "
-                     "denoted graph; C = straight build in random order/orientation. A==B==C checked in both operand orders with != as negation, "
-                     "reflexivity, copy construction / assignment, then the copy is perturbed by exactly one edge / label / vertex and must compare "
-                     "unequal while its source stays equal and unchanged. All eight classes, seven label kinds",
+                     "denoted graph; C = straight build in random order/orientation; copies by construction and assignment; a copy perturbed by exactly one "
+                     "extra / missing / moved edge, one label / weight / multiplicity, or one vertex. For every pair the verdict == must give is computed from the two "
+                     "graphs' OBSERVABLE state (size, hasEdge for every pair, value on every edge) and compared with a==b, b==a, a!=b, b!=a; the source of a mutated copy "
+                     "must keep its exact observable state. All eight classes, seven label kinds",
                 floors={"equality_checks_expected_equal": 20000, "equality_checks_expected_unequal": 8000, "pairs_where_a_history_removed_edges": 2000}),
     "C16": dict(quick=54000, thorough=1800000,
                 rule="histories mixing forced and unforced insertions (same label for every copy of a pair), removeEdge and removeDuplicateEdges on the "
@@ -109,7 +110,8 @@ def run_hist(prop, tier, seed):
     plan = HIST_PLAN[prop]
     binary = V.build_engine(HIST, "asan")
     cases = plan[tier]
-    res = V.run_sharded(prop, binary, [], cases, seed, tier, V.NCPU, 900 if tier == "quick" else 7200, replay_dir(prop), tag="hist-" + prop)
+    extra = [] if tier == "quick" else ["--x-maxlen", "160", "--x-maxn", "9"]   # thorough: histories up to 160 calls on up to 9 vertices
+    res = V.run_sharded(prop, binary, extra, cases, seed, tier, V.NCPU, 900 if tier == "quick" else 14400, replay_dir(prop), tag="hist-" + prop)
     c = res.counters
     coverage = {
         "evaluations": int(cases),
@@ -163,8 +165,8 @@ SHAPE_PLAN = {
                      "each built in 5 insertion orders/orientations (as enumerated, reversed, 3 seeded shuffles), plus seeded random graphs on 5-12 vertices with "
                      "isolated prefixes/suffixes; on each, for all eight classes (labels NoLabel,int,string,struct): vertex range-for = 0..n-1; edges() by pre-increment, "
                      "post-increment (returned value = old position) and range-for give one sequence, twice; begin()==end() iff no edge; multiset of edges = model; "
-                     "getInDegrees, getAdjacencyMatrix, getReversedGraph, getDirectedGraph, undirected-from-directed, text and binary writers and operator<< return "
-                     "normally and agree with the model. distinct_nontrivial = distinct (graph, insertion order) pairs with at least one vertex",
+                     "getInDegrees, getAdjacencyMatrix, getReversedGraph, getDirectedGraph, undirected-from-directed, text and binary writers and operator<< are "
+                     "DEFINED (return normally; what they return is C01/C02/C09/C13/C14's verdict); then three enumerate-mutate-enumerate rounds per graph. distinct_nontrivial = distinct (graph, insertion order) pairs with at least one vertex",
                 floors={"graphs_with_zero_vertices": 10, "graphs_without_edges": 40, "graphs_from_exhaustive_enumeration": 8000, "edge_iteration_steps": 100000,
                         "files_written": 10000, "conversions_checked": 5000}),
     "C09": dict(level="exploration",
@@ -235,8 +237,9 @@ PATHS_PLAN = {
                      "as stated: findVertexPredecessors <= V, findAllVertexPredecessors <= V+E, findGeodesicsDijkstra <= V+E+1 (E = total neighbour-list length). "
                      "Families with exponentially many shortest paths (layered graphs of width 2-4 and depth up to 40: up to 4^40 paths; grids up to 12x12), complete "
                      "DAGs, cliques with loops, bipartite, cycles with chords, directed and undirected, and seeded random graphs on 5-40 vertices; Dijkstra additionally "
-                     "with all-zero weights, {0,1,2,3} and dyadic weights; every source (8 sampled sources above 40 vertices). Results are cross-checked with the "
-                     "reference BFS / Bellman-Ford on the same run",
+                     "with all-zero weights, {0,1,2,3} and dyadic weights; every source (8 sampled sources above 40 vertices); a third of the graphs hold every edge two or three times "
+                     "(force=true: E counts list entries); shortcut-triangle chains and dense random graphs provoke decrease-key cascades. Wrong answers seen on the "
+                     "way are counted but left to C11/C12: only the scan count is judged here",
                 floors={"scan_bound_checks": 20000, "searches_from_sources_with_over_1e6_shortest_paths": 200, "dijkstra_runs": 5000}),
 }
 
@@ -301,6 +304,27 @@ def run_io(prop, tier, seed):
     evaluations = cases
     memcheck = None
     if prop == "C15":
+        # AddressSanitizer aborts on allocations it considers too large, where the uninstrumented program gets std::bad_alloc /
+        # std::length_error - which the property allows. Such reports are not verdicts: the same input is loaded again by the
+        # uninstrumented build in a forked child under an 8 GB address-space limit, and only what happens there counts.
+        plain_bin = None
+        kept, requalified = [], 0
+        for v in res.viols:
+            if not any(t in v["key"] for t in ("asan-requested", "allocation-size-too-big", "asan-out-of-memory")):
+                kept.append(v)
+                continue
+            if plain_bin is None:
+                plain_bin = V.build_engine(IO, "plain")
+            rc2, d2, err2 = V.run_single_case(prop, plain_bin, ["--x-isolate", "1"], v["case"], seed, tier, replay_dir(prop), rlimit_as_gb=8)
+            requalified += 1
+            if d2 is None:
+                v = dict(v)
+                v["key"] = v["key"] + "/and-uninstrumented-build-died"
+                kept.append(v)
+            else:
+                kept += d2["violations"]   # empty when the uninstrumented loader returned or threw a std::exception
+        res.viols = kept
+        c["asan_allocation_limit_reports_requalified_under_plain_build"] = requalified
         evaluations = int(c.get("cut_offsets_loaded", 0) + c.get("malformed_text_inputs", 0))
         # the uninitialised-read half of the claim: the truncation cases again under valgrind memcheck (uninstrumented -O1 build)
         plain = V.build_engine(IO, "plain")
@@ -327,6 +351,46 @@ def run_io(prop, tier, seed):
         "build": "g++ -O1 -fsanitize=address,undefined -fno-sanitize-recover=all -D_GLIBCXX_ASSERTIONS",
         "exhaustive": False,
     }
+    if prop == "C14":
+        # open failures injected at the system-call boundary: the file exists and is openable; strace makes openat fail
+        import shutil
+        import subprocess
+        plain = V.build_engine(IO, "plain")
+        wd = V.work_dir("c14-inject")
+        injected = {}
+        errnos = ["EACCES", "EMFILE"] if tier == "quick" else ["EACCES", "EMFILE", "ENFILE", "ENOSPC", "EIO", "ENOMEM", "EROFS"]
+        for en in errnos:
+            path = os.path.join(wd, "victim-%s.dat" % en)
+            with open(path, "wb") as fh:
+                fh.write(b"\x00\x00\x00\x00\x01\x00\x00\x00")
+            out = os.path.join(wd, "out-%s.json" % en)
+            slog = os.path.join(wd, "strace-%s.log" % en)
+            cmd = ["strace", "-f", "-o", slog, "-P", path, "-e", "trace=openat,open,creat", "-e", "inject=openat,open,creat:error=" + en,
+                   plain, "--prop", prop, "--tier", tier, "--seed", str(seed), "--mode", "openfail-path", "--x-path", path, "--out", out,
+                   "--replay-dir", replay_dir(prop), "--work-dir", wd]
+            try:
+                subprocess.run(cmd, stdout=subprocess.DEVNULL, stderr=subprocess.DEVNULL, timeout=300)
+            except subprocess.TimeoutExpired:
+                pass
+            fired = 0
+            if os.path.exists(slog):
+                fired = open(slog, errors="replace").read().count("(INJECTED)")
+            injected[en] = fired
+            if os.path.exists(out):
+                with open(out) as fh:
+                    d2 = json.load(fh)
+                for v in d2["violations"]:
+                    v = dict(v)
+                    v["key"] = v["key"] + "/" + en
+                    res.viols.append(v)
+                c["open_failure_calls"] = c.get("open_failure_calls", 0) + d2["counters"].get("open_failure_calls", 0)
+            elif not res.inconclusive:
+                res.inconclusive = "strace-injected run for %s produced no result" % en
+            if fired < 9 and not res.inconclusive:
+                res.inconclusive = "strace injected only %d of 9 expected openat failures for %s (injection did not reach the calls)" % (fired, en)
+        shutil.rmtree(wd, ignore_errors=True)
+        coverage["openat_failures_injected_by_strace"] = injected
+        coverage["counters"]["open_failure_calls"] = c.get("open_failure_calls", 0)
     if memcheck is not None:
         coverage["valgrind_memcheck"] = memcheck
     assume = list(ASSUME_COMMON)
@@ -541,7 +605,7 @@ for p in SHAPE_PLAN:
 for p in PATHS_PLAN:
     PROPS[p] = {"title": TITLES[p], "run": run_paths, "engines": [("paths", "asan")]}
 for p in IO_PLAN:
-    PROPS[p] = {"title": TITLES[p], "run": run_io, "engines": [("io", "asan")] + ([("io", "plain")] if p == "C15" else [])}
+    PROPS[p] = {"title": TITLES[p], "run": run_io, "engines": [("io", "asan")] + ([("io", "plain")] if p in ("C14", "C15") else [])}
 PROPS["C17"] = {"title": TITLES["C17"], "run": run_c17, "engines": [(e, f) for e in ("hist-lite", "shape-lite", "paths", "io-lite") for f in ("asan", "debug", "o2", "clang-asan")]}
 PROPS["C18"] = {"title": TITLES["C18"], "run": run_c18, "engines": [("race", "tsan"), ("race", "clang-tsan")]}
 PROPS["C07"] = {"title": TITLES["C07"], "run": run_c07, "engines": [("reject", "asan")]}
@@ -609,6 +673,10 @@ def replay(prop, path):
         env.update(d.get("env", {}))
         p = subprocess.run(d["command"], env=env)
         return 1 if p.returncode != 0 else 0
+    if "case" not in d or "seed" not in d:
+        # witnesses that are not a single case (digest disagreement between builds, uninstantiable constructor): re-run the whole check
+        log("this witness is not a single case; re-run ./check %s with VERIF_SEED=%s to reproduce" % (prop, d.get("seed", 1)))
+        return 1
     # re-run the single case through the owning engine
     entry = PROPS[prop]
     name, flavor = entry["engines"][0]
